@@ -139,6 +139,7 @@ OUTCOMES = [
     ("servfail", 5), ("refused", 2), ("notimp", 1), ("rcode9", 1), ("formerr_rcode", 1),
     ("exc_formerror", 2), ("exc_eof", 2), ("exc_oserror", 2), ("exc_notimpl", 1), ("timeout", 5),
     ("truncated", 4), ("truncated_always", 1), ("not_response", 1), ("slow", 2), ("exc_badresponse", 1),
+    ("cname_loop", 1), ("two_questions", 1),
 ]
 
 
@@ -258,6 +259,16 @@ def build_response(request, o, idx, tcp):
                 name = tgt
             if o["final"]:
                 _add_answer(r, name, q, o["ttl"], idx)
+    elif k == "cname_loop":
+        if q.rdtype == dns.rdatatype.CNAME:
+            _add_answer(r, q.name, q, 60, idx)
+        else:
+            other = dns.name.from_text("loop.chain.test.")
+            r.answer.append(dns.rrset.from_text(q.name, 60, "IN", "CNAME", other.to_text()))
+            r.answer.append(dns.rrset.from_text(other, 60, "IN", "CNAME", q.name.to_text()))
+    elif k == "two_questions":
+        r.question.append(dns.rrset.RRset(dns.name.from_text("second.question.test."), dns.rdataclass.IN, dns.rdatatype.A))
+        _add_answer(r, q.name, q, 60, idx)
     elif k == "nodata":
         _add_soa(r, q.name, o.get("soa"))
     elif k == "nxdomain":
@@ -501,6 +512,12 @@ def _m_min_ttl(o, rdtype):
         if o["final"]:
             return ("answer", min(o["cttl"], o["ttl"]))
         return ("nodata", o["cttl"])  # chain ends without an answer; no SOA is found
+    if k == "cname_loop":
+        if rdtype == "CNAME":
+            return ("answer", 60)
+        return ("broken", None)  # the chain never ends: ChainTooLong
+    if k == "two_questions":
+        return ("broken", None)  # a response must carry exactly one question
     if k in ("nodata", "nxdomain"):
         soa = o.get("soa")
         if soa is None:
@@ -623,7 +640,7 @@ def model_run(case, res_states=None):
                         else:
                             retry_tcp = True
                         continue
-                    if k in ("answer", "truncated", "slow", "cname", "nodata", "not_response"):
+                    if k in ("answer", "truncated", "slow", "cname", "nodata", "not_response", "cname_loop", "two_questions"):
                         if k == "not_response":
                             servers.remove(cur)
                             continue
@@ -686,6 +703,8 @@ def _expected_rrset_text(ans, idx_unused=None):
     ns = ans["ns"]
     qname = dns.name.from_text(ans["qname"])
     rdtype = ans["rdtype"]
+    if o["k"] == "cname_loop":
+        o = dict(o, ttl=60)
     if not ans["rrset"]:
         return qname, None
     name = qname
